@@ -157,13 +157,21 @@ func (c c20cfg) String() string {
 	if c.genBool {
 		t = "bool"
 	}
-	return fmt.Sprintf("type=%s variables=%v conditions=%v tryeval=%v kinds=%s", t, c.vars, c.cond, c.try, []string{"all", "numbers-only", "booleans-only", "dne-only"}[c.kinds])
+	return fmt.Sprintf("type=%s variables=%v conditions=%v tryeval=%v kinds=%s", t, c.vars, c.cond, c.try, []string{"all", "numbers-only", "booleans-only", "dne-only", "operator-named"}[c.kinds])
 }
 
 var (
 	c20Num  = []eval.GenExprResult{{Expr: "n_min", Res: int64(math.MinInt64)}, {Expr: "n_m1", Res: int64(-1)}, {Expr: "n_zero", Res: int64(0)}, {Expr: "n_seven", Res: int64(7)}, {Expr: "n_max", Res: int64(math.MaxInt64)}}
 	c20Bool = []eval.GenExprResult{{Expr: "b_true", Res: true}, {Expr: "b_false", Res: false}}
 	c20Dne  = []eval.GenExprResult{{Expr: "d_one", Res: eval.DNE}, {Expr: "d_two", Res: eval.DNE}}
+)
+
+// variables whose NAMES are spelled like builtin operators (a registered
+// variable in operand position is a variable whatever its name)
+var (
+	c20NumOp  = []eval.GenExprResult{{Expr: "mod", Res: int64(3)}, {Expr: "version", Res: int64(-2)}, {Expr: "date", Res: int64(0)}, {Expr: "add", Res: int64(11)}}
+	c20BoolOp = []eval.GenExprResult{{Expr: "in", Res: true}, {Expr: "not", Res: false}, {Expr: "between", Res: true}}
+	c20DneOp  = []eval.GenExprResult{{Expr: "xor", Res: eval.DNE}, {Expr: "overlap", Res: eval.DNE}}
 )
 
 func (c c20cfg) options() []eval.GenExprOption {
@@ -197,6 +205,11 @@ func (c c20cfg) options() []eval.GenExprOption {
 			if kinds == 0 || kinds == 3 {
 				g.DneVariables = append(g.DneVariables, c20Dne...)
 			}
+			if kinds == 4 {
+				g.NumVariables = append(g.NumVariables, c20NumOp...)
+				g.BoolVariables = append(g.BoolVariables, c20BoolOp...)
+				g.DneVariables = append(g.DneVariables, c20DneOp...)
+			}
 		})
 	}
 	return o
@@ -214,7 +227,7 @@ var c20GenVarMap = map[string]interface{}{
 
 // c20Value: the value of a variable under the engine's normalisation.
 func c20Value(name string) (eval.Value, bool) {
-	for _, l := range [][]eval.GenExprResult{c20Num, c20Bool} {
+	for _, l := range [][]eval.GenExprResult{c20Num, c20Bool, c20NumOp, c20BoolOp} {
 		for _, v := range l {
 			if v.Expr == name {
 				return v.Res, true
@@ -235,7 +248,9 @@ type c20worker struct {
 func newC20Worker() *c20worker {
 	w := &c20worker{h: drive.NewHarness()}
 	w.cfg = eval.NewConfig()
-	for i, v := range append(append(append([]eval.GenExprResult{}, c20Num...), c20Bool...), c20Dne...) {
+	all := append(append(append([]eval.GenExprResult{}, c20Num...), c20Bool...), c20Dne...)
+	all = append(append(append(all, c20NumOp...), c20BoolOp...), c20DneOp...)
+	for i, v := range all {
 		w.cfg.VariableKeyMap[v.Expr] = eval.VariableKey(i + 1)
 	}
 	for name := range c20GenVarMap {
@@ -244,9 +259,24 @@ func newC20Worker() *c20worker {
 	return w
 }
 
-type c20fetch struct{ withDNE bool }
+// c20vals: what the variables are worth for one generator call.
+type c20vals struct {
+	val func(name string) (eval.Value, bool)
+	dne func(name string) bool
+}
 
-func (f c20fetch) val(s string) (eval.Value, bool) { return c20Value(s) }
+var c20Default = c20vals{val: c20Value, dne: func(n string) bool {
+	return strings.HasPrefix(n, "d_") || n == "xor" || n == "overlap"
+}}
+
+type c20fetch struct{ v c20vals }
+
+func (f c20fetch) val(s string) (eval.Value, bool) {
+	if f.v.dne(s) {
+		return nil, false
+	}
+	return f.v.val(s)
+}
 func (f c20fetch) Get(_ eval.VariableKey, s string) (eval.Value, error) {
 	v, ok := f.val(s)
 	if !ok {
@@ -259,6 +289,10 @@ func (f c20fetch) Cached(_ eval.VariableKey, s string) bool       { _, ok := f.v
 
 // c20Check judges one generated (expression, reported result) pair.
 func c20Check(r *rep.Run, w *c20worker, c c20cfg, level int, how string, res eval.GenExprResult, stats *[3]int64) {
+	c20CheckV(r, w, c, level, how, res, stats, c20Default)
+}
+
+func c20CheckV(r *rep.Run, w *c20worker, c c20cfg, level int, how string, res eval.GenExprResult, stats *[3]int64, vf c20vals) {
 	atomic.AddInt64(&stats[0], 1)
 	d := map[string]interface{}{"level": level, "options": c.String(), "produced_by": how, "expression": res.Expr, "reported": fmt.Sprintf("%T(%v)", res.Res, res.Res)}
 	// reference value
@@ -274,12 +308,12 @@ func c20Check(r *rep.Run, w *c20worker, c c20cfg, level int, how string, res eva
 		if n.K != term.KVar {
 			return
 		}
-		if strings.HasPrefix(n.Name, "d_") {
+		if vf.dne(n.Name) {
 			hasDNE = true
 			env.Vals[n.Name] = ref.Unknown
 			return
 		}
-		v, ok := c20Value(n.Name)
+		v, ok := vf.val(n.Name)
 		if !ok {
 			bad = n.Name
 			return
@@ -322,9 +356,9 @@ func c20Check(r *rep.Run, w *c20worker, c c20cfg, level int, how string, res eva
 	atomic.AddInt64(&stats[1], 1)
 	var got drive.Out
 	if hasDNE {
-		got = w.h.TryEval(e, c20fetch{})
+		got = w.h.TryEval(e, c20fetch{vf})
 	} else {
-		got = w.h.Eval(e, c20fetch{})
+		got = w.h.Eval(e, c20fetch{vf})
 	}
 	atomic.AddInt64(&stats[2], 1)
 	if got.Err != nil || got.Panic != nil || (!ref.ValEqual(got.Val, res.Res) && !(got.Val == eval.DNE && res.Res == eval.DNE)) {
@@ -341,7 +375,7 @@ func c20(r *rep.Run) {
 		c20LeafVals = []int{0, 1, 49, 50, 51, 52, 99}
 		r.SetBudget(2400e9)
 	}
-	r.Rule = "the generator draws only from the *rand.Rand it is given; the harness supplies rand.New(scripted source) whose answers the explorer chooses (Int63 = c<<32 makes Intn(n) = c mod n). A draw-shape automaton (control flow only: which draw comes next — node choice, leaf choice, leaf value, sub-level, arity) gives each draw its menu; it is bound to the code on every run: the real generator must consume exactly the predicted number of draws. Menus are complete for structural draws (10 node choices, all sub-levels, 3 arities) and use value classes for leaves ({variable, DNE variable, constant} x {every variable index, both sides of the true/false boundary, the numbers -50, 0, 1 (thorough: also -49, -1, 49)}). DFS: EVERY decision sequence at level <= 1; at levels 2..4 every sequence with at most maxDev non-default answers (deviation bound); plus every real seed 0..N at levels 0..6; x both result types x all 8 option combinations (+ variables through GenVariables). Oracle: the text parses, reference evaluation (R1, or Kleene R2 when a DNE variable occurs) does not fail and equals the reported result; the expression compiles with the given variables and the engine's Eval/TryEval returns the same value. non-trivial = generated expressions containing an operator application"
+	r.Rule = "the generator draws only from the *rand.Rand it is given; the harness supplies rand.New(scripted source) whose answers the explorer chooses (Int63 = c<<32 makes Intn(n) = c mod n). A draw-shape automaton (control flow only: which draw comes next — node choice, leaf choice, leaf value, sub-level, arity) gives each draw its menu; it is bound to the code on every run: the real generator must consume exactly the predicted number of draws. Menus are complete for structural draws (10 node choices, all sub-levels, 3 arities) and use value classes for leaves ({variable, DNE variable, constant} x {every variable index, both sides of the true/false boundary, the numbers -50, 0, 1 (thorough: also -49, -1, 49)}). DFS: EVERY decision sequence at level <= 1; at levels 2..4 every sequence with at most maxDev non-default answers (deviation bound); plus every real seed 0..N at levels 0..6; x both result types x all 8 option combinations (+ variables through GenVariables; + variables of every kind whose names are spelled like builtin operators; + one GenVariables option object reused over every history of 3 value phases written into the same map). Oracle: the text parses, reference evaluation (R1, or Kleene R2 when a DNE variable occurs) does not fail and equals the reported result; the expression compiles with the given variables and the engine's Eval/TryEval returns the same value. non-trivial = generated expressions containing an operator application"
 	r.Assume = []string{"math/rand's Intn(n) = Int31n for n < 2^31: (Int63()>>32) mod n for the small n used (checked by the draw-count binding on every run)",
 		"leaf value draws use 5 value classes, not all 100 values; real seeds cover the rest by sampling a range exhaustively"}
 	var cfgs []c20cfg
@@ -351,8 +385,8 @@ func c20(r *rep.Run) {
 		}
 		cfgs = append(cfgs, c20cfg{genBool: gb, vars: true, cond: true, try: true, viaGenVariables: true})
 		// only some kinds of variables are supplied (incl. kinds that do not match the result type)
-		for kinds := 1; kinds <= 3; kinds++ {
-			cfgs = append(cfgs, c20cfg{genBool: gb, vars: true, cond: true, try: true, kinds: kinds}, c20cfg{genBool: gb, vars: true, cond: false, try: kinds == 3, kinds: kinds})
+		for kinds := 1; kinds <= 4; kinds++ {
+			cfgs = append(cfgs, c20cfg{genBool: gb, vars: true, cond: true, try: true, kinds: kinds}, c20cfg{genBool: gb, vars: true, cond: false, try: kinds >= 3, kinds: kinds})
 		}
 	}
 	ws := make([]*c20worker, r.Workers)
@@ -487,6 +521,88 @@ func c20(r *rep.Run) {
 			r.Sample(14, map[string]interface{}{"seed_range": sprintf("%s level %d seeds 0..%d", j.c, j.level, n-1)})
 		}
 	})
+	// one GenVariables option object REUSED while the caller's map changes:
+	// every history (depth <= 3) of 3 value phases; after each change the
+	// generator runs for every seed 0..S at levels 0..3 and is judged against
+	// the values the map holds at that call
+	{
+		phases := []map[string]interface{}{
+			{"n_a": 7, "n_b": int32(-9), "n_c": 0, "b_p": true, "b_q": false, "d_u": eval.DNE},
+			{"n_a": 0, "n_b": int64(4), "n_c": -3, "b_p": false, "b_q": false, "d_u": eval.DNE},
+			{"n_a": -1, "n_b": 0, "n_c": 12, "b_p": false, "b_q": true, "d_u": eval.DNE},
+		}
+		var hists [][]int
+		for a := 0; a < 3; a++ {
+			hists = append(hists, []int{a})
+			for b := 0; b < 3; b++ {
+				if b != a {
+					hists = append(hists, []int{a, b})
+					for c := 0; c < 3; c++ {
+						if c != b {
+							hists = append(hists, []int{a, b, c})
+						}
+					}
+				}
+			}
+		}
+		reuseSeeds := 60
+		if r.Thorough() {
+			reuseSeeds = 600
+		}
+		var reuseRuns int64
+		type rjob struct {
+			h  []int
+			gb bool
+		}
+		var rjobs []rjob
+		for _, h := range hists {
+			rjobs = append(rjobs, rjob{h, true}, rjob{h, false})
+		}
+		r.ParallelFor(len(rjobs), func(wi, ji int) {
+			j := rjobs[ji]
+			m := map[string]interface{}{}
+			for k, v := range phases[j.h[0]] {
+				m[k] = v
+			}
+			cfg := eval.NewConfig()
+			for name := range m {
+				eval.GetOrRegisterKey(cfg, name)
+			}
+			w := &c20worker{h: drive.NewHarness(), cfg: cfg}
+			gt := eval.GenType(eval.GenNumber)
+			if j.gb {
+				gt = eval.GenType(eval.GenBool)
+			}
+			opts := []eval.GenExprOption{gt, eval.EnableVariable, eval.EnableCondition, eval.EnableTryEval, eval.GenVariables(m)}
+			vf := c20vals{val: func(n string) (eval.Value, bool) {
+				v, ok := m[n]
+				if !ok {
+					return nil, false
+				}
+				return eval.UnifyType(v), true
+			}, dne: func(n string) bool { return m[n] == interface{}(eval.DNE) }}
+			c := c20cfg{genBool: j.gb, vars: true, cond: true, try: true, viaGenVariables: true}
+			for step, ph := range j.h {
+				for k, v := range phases[ph] {
+					m[k] = v // same names, new values, same map object
+				}
+				for level := 0; level <= 3; level++ {
+					for sd := 0; sd < reuseSeeds; sd++ {
+						var res eval.GenExprResult
+						if p, site := drive.Fence(func() { res = eval.GenerateRandomExpr(level, rand.New(rand.NewSource(int64(sd))), opts...) }); p != nil {
+							r.Violate("generator-panic", site, sprintf("GenerateRandomExpr panics: %v", p), map[string]interface{}{"level": level, "seed": sd})
+							continue
+						}
+						atomic.AddInt64(&reuseRuns, 1)
+						c20CheckV(r, w, c, level, sprintf("seed %d, one GenVariables option reused, map values rewritten through phases %v (now at step %d)", sd, j.h, step+1), res, &stats, vf)
+					}
+				}
+			}
+		})
+		r.Cov["reused_option_histories"] = len(rjobs)
+		r.Cov["reused_option_runs"] = reuseRuns
+		seedRuns += reuseRuns
+	}
 	r.Cov["decision_sequences"] = fmtSeq
 	r.Cov["shape_model_in_sync"] = outOfSync == 0
 	r.Cov["shape_model_out_of_sync_runs"] = outOfSync
